@@ -1,15 +1,15 @@
 (* Distributed C/F splittings as pure functions of the GLOBAL strength pattern, the contiguous partition
    (list of block sizes, empty blocks allowed) and the caller's weights
-   (raptor/ruge_stuben/par_cf_splitting.cpp: set_initial_states, split_rs on a ParCSRMatrix, transpose,
+   (raptor/ruge_stuben/par_cf_splitting.cpp: set_initial_states, split_rs on a ParCSRMatrix, reset_boundaries,
     initial_weights, find_off_proc_weights, find_max_off_weights, select_independent_set,
-    find_off_proc_states, update_states, pmis_main_loop, split_pmis).
+    find_off_proc_states, update_states, pmis_main_loop, split_pmis, split_hmis).
    Data owned by the ranks (states, weights) is kept in ONE global list (rank r owns the slice
    [lo_r, lo_r + n_r)); what a rank knows about other ranks (off_proc_states, off_proc_weights,
-   unassigned_off) is kept per rank, aligned with its off_proc_column_map.  MPI is not modelled: a forward
-   exchange reads the owners' slice, a reverse exchange reduces into it.  The conditional exchanges
-   (conditional_comm / conditional_comm_T) deliver only the positions selected by the predicate; they are
-   well defined only if sender and receiver select the same positions, which the model checks at every
-   exchange (result None otherwise: in the library that is a truncated message or a hang). *)
+   unassigned_off) is kept per rank.  MPI is not modelled: a forward exchange reads the owners' slice, a
+   reverse exchange reduces into it.  The conditional exchanges (conditional_comm / conditional_comm_T) deliver
+   only the positions selected by the predicate; they are well defined only if sender and receiver select the
+   same positions, which the model checks at every exchange (result None otherwise: in the library that is a
+   truncated message or a hang).  Amg/SplitParProofs.v proves that the check never fails. *)
 From Coq Require Import List Arith Lia Bool.
 Import ListNotations.
 From Raptor Require Import Amg.Split.
@@ -24,9 +24,6 @@ Definition in_block (b : nat * nat) (v : nat) : bool := (fst b <=? v) && (v <? f
 Definition block_of (bs : list (nat * nat)) (v : nat) : nat * nat :=
   match find (fun b => in_block b v) bs with Some b => b | None => (0, 0) end.
 
-(* on-process part of global row v as the local loops see it (move_diag, then skip the diagonal), global ids *)
-Definition on_row (b : nat * nat) (v : nat) (row : list nat) : list nat :=
-  offd v (move_diag_row v (filter (in_block b) row)).
 Definition off_row (b : nat * nat) (row : list nat) : list nat :=
   filter (fun c => negb (in_block b c)) row.
 
@@ -36,12 +33,6 @@ Fixpoint insert_u (x : nat) (l : list nat) : list nat :=
   | y :: t => if x <? y then x :: l else if x =? y then l else y :: insert_u x t
   end.
 Definition sort_u (l : list nat) : list nat := fold_left (fun acc x => insert_u x acc) l [].
-
-Fixpoint index_of (x : nat) (l : list nat) : nat :=
-  match l with
-  | [] => 0
-  | y :: t => if x =? y then 0 else S (index_of x t)
-  end.
 
 (* set_initial_states: stored on-process row longer than 1 (the diagonal) or any off-process entry *)
 Definition initial_states (S : graph) (bs : list (nat * nat)) : list label :=
@@ -200,28 +191,36 @@ Fixpoint par_loop (fuel : nat) (bs : list (nat * nat)) (p : list pdyn * list lab
   else Some p.
 
 (* pmis_main_loop up to the first pass of the while loop (always executed) *)
+(* rows depending on an already selected column become fine (HMIS enters with coarse points) *)
+Definition premark (bs : list (nat * nat)) (st0 : list label) : list label :=
+  fold_left (fun st b => fold_left (fun st i =>
+      if label_eqb (nth i st LU) LC
+      then fold_left (fun st row => if is_U (nth row st LU) then upd st row LF else st)
+                     (filter (in_block b) (nth i CL [])) st
+      else st) (seq (fst b) (snd b)) st) bs st0.
+(* the loop over the local rows: unassigned with weight below one becomes fine, unassigned otherwise goes to
+   the work list, anything else gets weight zero *)
+Definition cls_step (q : list nat * list label * list F) (i : nat) :=
+  let '(un, st, w) := q in
+  if is_U (nth i st LU) && ltb (nth i w zero) one then (un, upd st i LF, upd w i zero)
+  else if is_U (nth i st LU) then (un ++ [i], st, w)
+  else (un, st, upd w i zero).
+Definition cls_rank (a : list (list nat) * list label * list F) (b : nat * nat) :=
+  let '(uns, st, w) := a in
+  let '(un, st', w') := fold_left cls_step (seq (fst b) (snd b)) ([], st, w) in
+  (uns ++ [un], st', w').
+(* first exchange of states and weights *)
+Definition start_dyn (st2 : list label) (w2 : list F) (bu : (nat * nat) * list nat) : pdyn :=
+  let cm := colmap (fst bu) in
+  let view := fold_left (fun v g => upd v g (nth g st2 LU)) cm (repeat LU n) in
+  let offw := fold_left (fun v g => upd v g (nth g w2 zero)) cm (repeat zero n) in
+  mkPdyn view offw (snd bu) (filter (fun g => is_U (nth g view LU)) cm) true.
+
 Definition par_pmis_start (bs : list (nat * nat)) (st0 : list label) (keys : list F) : list pdyn * list label * list F :=
   let w0 := initial_weights bs keys in
-  (* rows depending on an already selected column become fine (HMIS) *)
-  let st1 := fold_left (fun st b => fold_left (fun st i =>
-                 if label_eqb (nth i st LU) LC
-                 then fold_left (fun st row => if is_U (nth row st LU) then upd st row LF else st)
-                                (filter (in_block b) (nth i CL [])) st
-                 else st) (seq (fst b) (snd b)) st) bs st0 in
-  let '(uns, st2, w2) := fold_left (fun a b =>
-        let '(uns, st, w) := a in
-        let '(un, st', w') := fold_left (fun q i =>
-              let '(un, st, w) := q in
-              if is_U (nth i st LU) && ltb (nth i w zero) one then (un, upd st i LF, upd w i zero)
-              else if is_U (nth i st LU) then (un ++ [i], st, w)
-              else (un, st, upd w i zero)) (seq (fst b) (snd b)) ([], st, w) in
-        (uns ++ [un], st', w')) bs ([], st1, w0) in
-  let dys := map (fun bu =>
-        let cm := colmap (fst bu) in
-        let view := fold_left (fun v g => upd v g (nth g st2 LU)) cm (repeat LU n) in
-        let offw := fold_left (fun v g => upd v g (nth g w2 zero)) cm (repeat zero n) in
-        mkPdyn view offw (snd bu) (filter (fun g => is_U (nth g view LU)) cm) true) (combine bs uns) in
-  (dys, st2, w2).
+  let st1 := premark bs st0 in
+  let '(uns, st2, w2) := fold_left cls_rank bs ([], st1, w0) in
+  (map (start_dyn st2 w2) (combine bs uns), st2, w2).
 
 Definition par_pmis_main (fuel : nat) (bs : list (nat * nat)) (st0 : list label) (keys : list F)
   : option (list (list label) * list label) :=
